@@ -4,7 +4,8 @@ import CollectionsC.Proofs.HashTableDerived
 import CollectionsC.Proofs.HashTableLedger
 /-! The per-operation theorems of the hash table under the conventional names
 (`op_inv`, `op_refines`, `op_nofault`, `op_inert`, `op_atomic`, `op_ledger`); each is a projection of
-the bundled `*_spec` theorems of `Proofs/HashTable.lean`. -/
+the bundled `*_spec` theorems of `Proofs/HashTable.lean`.  Ledger statements speak of `liveOf · t.triple`,
+the blocks owned through the table's own allocator triple. -/
 namespace CC.HashTable
 open CC CC.HT CC.Spec
 
@@ -21,11 +22,12 @@ theorem add_nofault (c : HCfg) (t : HashTable) (k : Key) (v : Nat) (m : Mem) (h 
 theorem add_atomic (c : HCfg) (t : HashTable) (k : Key) (v : Nat) (m : Mem) (h : t.Inv c)
     (hne : (t.add c k v m).1 ≠ .ok) :
     ((t.add c k v m).1 = .errAlloc ∨ (t.add c k v m).1 = .errMaxCapacity) ∧
-    (t.add c k v m).2.1.abs.Perm t.abs ∧ (t.add c k v m).2.1.size = t.size ∧ (t.add c k v m).2.2.live = m.live :=
+    (t.add c k v m).2.1.abs.Perm t.abs ∧ (t.add c k v m).2.1.size = t.size ∧
+    liveOf (t.add c k v m).2.2 t.triple = liveOf m t.triple :=
   (add_spec c t k v m h).2.2.1 hne
 
 theorem add_ledger (c : HCfg) (t : HashTable) (k : Key) (v : Nat) (m : Mem) (h : t.Inv c) :
-    (t.add c k v m).2.2.live + t.size = m.live + (t.add c k v m).2.1.size := by
+    liveOf (t.add c k v m).2.2 t.triple + t.size = liveOf m t.triple + (t.add c k v m).2.1.size := by
   obtain ⟨_, a2, a3, _⟩ := add_spec c t k v m h
   by_cases hok : (t.add c k v m).1 = .ok
   · exact (a2 hok).2.2
@@ -37,53 +39,65 @@ theorem get_refines' (c : HCfg) (t : HashTable) (k : Key) (m : Mem) (h : t.Inv c
 theorem get_nofault (c : HCfg) (t : HashTable) (k : Key) (m : Mem) (h : t.Inv c) :
     (t.get c k m).2.2 = m := (get_refines c t k m h).2.2
 
-theorem remove_inv (c : HCfg) (t : HashTable) (k : Key) (m : Mem) (h : t.Inv c) (hl : 0 < m.live) :
+theorem remove_inv (c : HCfg) (t : HashTable) (k : Key) (m : Mem) (h : t.Inv c)
+    (hl : (Map.lookup t.abs k).isSome = true → 0 < liveOf m t.triple) :
     (t.remove c k m).2.2.1.Inv c := (remove_spec c t k m h hl).1
 
-theorem remove_refines (c : HCfg) (t : HashTable) (k : Key) (m : Mem) (h : t.Inv c) (hl : 0 < m.live) :
+theorem remove_refines (c : HCfg) (t : HashTable) (k : Key) (m : Mem) (h : t.Inv c)
+    (hl : (Map.lookup t.abs k).isSome = true → 0 < liveOf m t.triple) :
     (t.remove c k m).2.2.1.abs = Map.erase t.abs k ∧ (t.remove c k m).2.1 = Map.lookup t.abs k ∧
     (t.remove c k m).1 = (if (Map.lookup t.abs k).isSome then .ok else .errKeyNotFound) :=
   ⟨(remove_spec c t k m h hl).2.1, (remove_spec c t k m h hl).2.2.1, (remove_spec c t k m h hl).2.2.2.1⟩
 
-theorem remove_inert (c : HCfg) (t : HashTable) (k : Key) (m : Mem) (h : t.Inv c) (hl : 0 < m.live)
-    (hne : (t.remove c k m).1 ≠ .ok) : (t.remove c k m).2.2.1 = t ∧ (t.remove c k m).2.2.2 = m :=
-  (remove_spec c t k m h hl).2.2.2.2.1 hne
+/-- an absent key: rejected and inert, with no assumption on the ledger -/
+theorem remove_inert (c : HCfg) (t : HashTable) (k : Key) (m : Mem) (h : t.Inv c)
+    (habs : Map.lookup t.abs k = none) : t.remove c k m = (.errKeyNotFound, none, t, m) := by
+  obtain ⟨_, _, p3, p4, p5, _⟩ := remove_spec c t k m h (fun hs => by rw [habs] at hs; cases hs)
+  rw [habs] at p3 p4
+  simp only [Option.isSome_none, Bool.false_eq_true, if_false] at p4
+  obtain ⟨q1, q2⟩ := p5 (by rw [p4]; simp)
+  have : t.remove c k m = ((t.remove c k m).1, (t.remove c k m).2.1, (t.remove c k m).2.2.1, (t.remove c k m).2.2.2) := rfl
+  rw [this, p3, p4, q1, q2]
 
-theorem remove_nofault (c : HCfg) (t : HashTable) (k : Key) (m : Mem) (h : t.Inv c) (hl : 0 < m.live) :
+theorem remove_nofault (c : HCfg) (t : HashTable) (k : Key) (m : Mem) (h : t.Inv c)
+    (hl : (Map.lookup t.abs k).isSome = true → 0 < liveOf m t.triple) :
     (t.remove c k m).2.2.2.fault = m.fault := (remove_spec c t k m h hl).2.2.2.2.2.2.1
 
-theorem remove_ledger (c : HCfg) (t : HashTable) (k : Key) (m : Mem) (h : t.Inv c) (hl : 0 < m.live)
-    (hok : (t.remove c k m).1 = .ok) :
-    (t.remove c k m).2.2.2.live = m.live - 1 ∧ (t.remove c k m).2.2.1.size + 1 = t.size :=
+theorem remove_ledger (c : HCfg) (t : HashTable) (k : Key) (m : Mem) (h : t.Inv c)
+    (hl : (Map.lookup t.abs k).isSome = true → 0 < liveOf m t.triple) (hok : (t.remove c k m).1 = .ok) :
+    liveOf (t.remove c k m).2.2.2 t.triple = liveOf m t.triple - 1 ∧ (t.remove c k m).2.2.1.size + 1 = t.size :=
   (remove_spec c t k m h hl).2.2.2.2.2.1 hok
 
-theorem removeAll_inv (c : HCfg) (t : HashTable) (m : Mem) (h : t.Inv c) (hl : t.size ≤ m.live) :
+theorem removeAll_inv (c : HCfg) (t : HashTable) (m : Mem) (h : t.Inv c) (hl : t.size ≤ liveOf m t.triple) :
     (t.removeAll m).1.Inv c := (removeAll_spec c t m h hl).1
 
-theorem removeAll_refines (c : HCfg) (t : HashTable) (m : Mem) (h : t.Inv c) (hl : t.size ≤ m.live) :
+theorem removeAll_refines (c : HCfg) (t : HashTable) (m : Mem) (h : t.Inv c) (hl : t.size ≤ liveOf m t.triple) :
     (t.removeAll m).1.abs = [] := (removeAll_spec c t m h hl).2.1
 
-theorem removeAll_ledger (c : HCfg) (t : HashTable) (m : Mem) (h : t.Inv c) (hl : t.size ≤ m.live) :
-    (t.removeAll m).2.live = m.live - t.size ∧ (t.removeAll m).2.fault = m.fault :=
-  ⟨(removeAll_spec c t m h hl).2.2.2.2.2.1, (removeAll_spec c t m h hl).2.2.2.2.2.2⟩
+theorem removeAll_ledger (c : HCfg) (t : HashTable) (m : Mem) (h : t.Inv c) (hl : t.size ≤ liveOf m t.triple) :
+    liveOf (t.removeAll m).2 t.triple = liveOf m t.triple - t.size ∧ (t.removeAll m).2.fault = m.fault :=
+  ⟨(removeAll_spec c t m h hl).2.2.2.2.2.1, (removeAll_spec c t m h hl).2.2.2.2.2.2.1⟩
 
-theorem new_inv (c : HCfg) (cap : Nat) (m : Mem) (t : HashTable) (h : (HashTable.new c cap m).2.1 = some t) :
-    t.Inv c ∧ t.abs = [] := by
-  obtain ⟨_, q2, q3, _⟩ := (new_spec c cap m).2.2.1 t h
-  exact ⟨q2, q3⟩
+theorem new_inv (c : HCfg) (cap : Nat) (tr : Triple) (m : Mem) (t : HashTable) (h : (HashTable.new c cap tr m).2.1 = some t) :
+    t.Inv c ∧ t.abs = [] ∧ t.triple = tr := by
+  obtain ⟨_, q2, q3, _, _, _, q7⟩ := (new_spec c cap tr m).2.2.1 t h
+  exact ⟨q2, q3, q7⟩
 
-theorem new_atomic (c : HCfg) (cap : Nat) (m : Mem) (hne : (HashTable.new c cap m).1 ≠ .ok) :
-    (HashTable.new c cap m).2.1 = none ∧ (HashTable.new c cap m).2.2.live = m.live := (new_spec c cap m).2.1 hne
+theorem new_atomic (c : HCfg) (cap : Nat) (tr : Triple) (m : Mem) (hne : (HashTable.new c cap tr m).1 ≠ .ok) :
+    (HashTable.new c cap tr m).2.1 = none ∧ liveOf (HashTable.new c cap tr m).2.2 tr = liveOf m tr :=
+  (new_spec c cap tr m).2.1 hne
 
-theorem destroy_ledger (c : HCfg) (t : HashTable) (m : Mem) (h : t.Inv c) (hl : t.size + 2 ≤ m.live) :
-    (t.destroy m).live = m.live - (t.size + 2) ∧ (t.destroy m).fault = m.fault := destroy_spec c t m h hl
+theorem destroy_ledger (c : HCfg) (t : HashTable) (m : Mem) (h : t.Inv c) (hl : t.size + 2 ≤ liveOf m t.triple) :
+    liveOf (t.destroy m) t.triple = liveOf m t.triple - (t.size + 2) ∧ (t.destroy m).fault = m.fault := destroy_spec c t m h hl
 
-/-- construct, use, destroy: the ledger returns to where it started -/
-theorem new_destroy_balanced (c : HCfg) (cap : Nat) (m : Mem) (t : HashTable)
-    (h : (HashTable.new c cap m).2.1 = some t) :
-    (t.destroy (HashTable.new c cap m).2.2).live = m.live ∧ (t.destroy (HashTable.new c cap m).2.2).fault = m.fault := by
-  obtain ⟨_, q2, _, q4, _, q6⟩ := (new_spec c cap m).2.2.1 t h
-  obtain ⟨d1, d2⟩ := destroy_spec c t (HashTable.new c cap m).2.2 q2 (by omega)
-  exact ⟨by omega, by rw [d2]; exact (new_spec c cap m).2.2.2.1⟩
+/-- construct, destroy: the ledger returns to where it started -/
+theorem new_destroy_balanced (c : HCfg) (cap : Nat) (tr : Triple) (m : Mem) (t : HashTable)
+    (h : (HashTable.new c cap tr m).2.1 = some t) :
+    liveOf (t.destroy (HashTable.new c cap tr m).2.2) tr = liveOf m tr ∧
+    (t.destroy (HashTable.new c cap tr m).2.2).fault = m.fault := by
+  obtain ⟨_, q2, _, q4, _, q6, q7⟩ := (new_spec c cap tr m).2.2.1 t h
+  obtain ⟨d1, d2⟩ := destroy_spec c t (HashTable.new c cap tr m).2.2 q2 (by rw [q7]; omega)
+  rw [q7] at d1
+  exact ⟨by omega, by rw [d2]; exact (new_spec c cap tr m).2.2.2.1⟩
 
 end CC.HashTable
